@@ -65,6 +65,135 @@ def _must_assigned(stmts, me='self') -> Set[str]:
     return out
 
 
+OPTIONAL_ENTITIES = ('derivative', 'ses', 'task', 'run', 'space', 'modality', 'desc')
+
+
+def replace_template(ctx, obs, fd, fr, qd, qr, assigned_any, must):
+    """TPL (rules/template.py): `_replace` is partially evaluated into the template of the path it returns; the obligations are
+    stated on the template, so they do not depend on how the function spells the construction."""
+    from ..rules import template as T
+    prog = ctx.prog
+    pp = fr.pos_params
+    if len(pp) < 3:
+        raise AnalysisError('_replace: expected (self, base, replace_entities)')
+    ev = T.TemplateEval(prog, fr, pp[1], pp[2])
+    r = ev.run()
+    w = where(prog, fr, fr.node)
+    con = 'the path is assembled from directory segments and a file name of `_`-joined entity segments'
+    if not isinstance(r, T.P) or not r.lst.items or not isinstance(r.lst.items[-1][1], T.J):
+        obs.unk('TAB', qr, con, f'the return value of _replace is not recognised as join(*dirs, "_".join(segments)): {ev.notes[:3]}', w)
+        return []
+    fname_guard, fname = r.lst.items[-1]
+    dirs = r.lst.items[:-1]
+    unknown = bool(T.flatten_unknowns(r)) or fname.sep != '_' or bool(fname_guard)
+    obs.check(fname.sep == '_' and not fname_guard, 'TAB', qr, con, f'file name joined with {fname.sep!r} under guard {sorted(fname_guard)}', '', w)
+    if T.flatten_unknowns(r):
+        obs.unk('TAB', qr, 'every segment of the rebuilt path is a constant or an entity value',
+                '; '.join(sorted({u.why for u in T.flatten_unknowns(r)}))[:200], w)
+
+    for h in sorted({repr(x) for x in T.half_resolved(r)}):
+        key = h.split("'")[1] if "'" in h else h
+        obs.bad('TAB', qr, f'entity {key!r} is the replacement when one is given and the value of the base file otherwise',
+                f'the path template carries {h}: ' + ('a requested replacement is ignored' if h.startswith('Inh') else
+                                                      'the base file value is never inherited'), w)
+
+    def ents_of(v):
+        if isinstance(v, (T.Rep, T.Inh)):
+            return [v.key]
+        if isinstance(v, T.Ent):
+            return [v.key]
+        if isinstance(v, T.S):
+            return [p.key for p in v.parts if isinstance(p, (T.Ent, T.Rep, T.Inh))]
+        return []
+
+    all_items = dirs + fname.lst.items
+    looked = sorted({e for _, v in all_items for e in ents_of(v)})
+    if len(looked) < 8 and not unknown:
+        obs.bad('TAB', qr, 'the rebuilt path carries the BIDS entities', f'only {looked} appear in the path template', w)
+    # (1) parsed <-> rebuilt
+    for e in sorted(set(looked) | (assigned_any - {'relpath', 'layout', '_meta'})):
+        if e in looked and e in assigned_any:
+            obs.ok('TAB', qr, f'entity {e!r} is parsed by _deconstruct and used by _replace', '', w)
+        elif e in assigned_any and unknown:
+            obs.unk('TAB', qr, f'entity {e!r} is parsed by _deconstruct and used by _replace', 'not found in the (partly unknown) template', w)
+        else:
+            obs.bad('TAB', qr, f'entity {e!r} is parsed by _deconstruct and used by _replace',
+                    f'{e!r}: parsed={e in assigned_any}, rebuilt={e in looked}: the entity is dropped when a path is rebuilt'
+                    if e in assigned_any else f'{e!r} is looked up by _replace but never parsed', w)
+    # (2) `<name>-<value>` segments carry the value of <name>; the last segment is <suffix>.<ext>
+    order = []
+    for g, v in fname.lst.items:
+        if isinstance(v, T.S) and len(v.parts) == 2 and isinstance(v.parts[0], str) and v.parts[0].endswith('-'):
+            name = v.parts[0][:-1]
+            order.append(name)
+            if isinstance(v.parts[1], T.Ent):
+                obs.check(v.parts[1].key == name, 'TAB', qr, f'segment {name}-<value> carries the value of {name}',
+                          f'the segment `{name}-` carries the value of entity {v.parts[1].key!r}', '', w)
+        elif isinstance(v, T.S) and len(v.parts) == 3 and v.parts[1] == '.':
+            order.append('suffix.ext')
+            got = [p.key if isinstance(p, T.Ent) else None for p in (v.parts[0], v.parts[2])]
+            if None not in got:
+                obs.check(got == ['suffix', 'ext'], 'TAB', qr, 'the last segment is <suffix>.<ext>', f'it is built from {got}', '', w)
+        elif not isinstance(v, T.U):
+            order.append(repr(v)[:30])
+    for g, v in dirs:
+        if isinstance(v, T.S) and len(v.parts) == 2 and isinstance(v.parts[0], str) and v.parts[0].endswith('-') \
+                and isinstance(v.parts[1], T.Ent):
+            name = v.parts[0][:-1]
+            obs.check(v.parts[1].key == name, 'TAB', qr, f'directory {name}-<value> carries the value of {name}',
+                      f'the directory `{name}-` carries the value of entity {v.parts[1].key!r}', '', w)
+    want = BIDS_ORDER + ['suffix.ext']
+    con = 'the file name is rebuilt in BIDS entity order'
+    if order == want:
+        obs.ok('TAB', qr, con, '', w)
+    elif unknown and [o for o in order if o in want] == [x for x in want if x in order]:
+        obs.unk('TAB', qr, con, f'order {order} (template partly unknown)', w)
+    else:
+        obs.bad('TAB', qr, con, f'order {order}, expected {want}', w)
+    # directories: derivatives/<derivative>/sub-<sub>/ses-<ses>/<modality>
+    dsig = []
+    for g, v in dirs:
+        if isinstance(v, str):
+            dsig.append(v)
+        elif isinstance(v, T.Ent):
+            dsig.append(f'<{v.key}>')
+        elif isinstance(v, T.S) and len(v.parts) == 2 and isinstance(v.parts[1], T.Ent):
+            dsig.append(f'{v.parts[0]}<{v.parts[1].key}>')
+        else:
+            dsig.append('?')
+    dwant = ['derivatives', '<derivative>', 'sub-<sub>', 'ses-<ses>', '<modality>']
+    con = 'the directories are derivatives/<derivative>/sub-<sub>/ses-<ses>/<modality>'
+    if dsig == dwant:
+        obs.ok('TAB', qr, con, '', w)
+    elif '?' in dsig:
+        obs.unk('TAB', qr, con, f'{dsig}', w)
+    else:
+        obs.bad('TAB', qr, con, f'directories {dsig}', w)
+    # (3) guards: an optional segment is present iff the entity it carries is set
+    for g, v in all_items:
+        es = ents_of(v)
+        if isinstance(v, str) and v == 'derivatives':
+            es = ['derivative']
+        for e in es:
+            if e not in OPTIONAL_ENTITIES and not (e == 'sub' and g):
+                continue
+            con = f'the segment of {e!r} is emitted iff that entity is set'
+            if any(str(k).startswith('?') for k, _ in g):
+                obs.unk('TAB', qr, con, f'guard {sorted(g)}', w)
+            elif g == frozenset({(e, True)}):
+                obs.ok('TAB', qr, con, '', w)
+            elif not g:
+                obs.bad('TAB', qr, con, f'the segment is emitted unconditionally: an unset entity is written as `{e}-None`', w)
+            else:
+                obs.bad('TAB', qr, con, f'the segment is guarded by {sorted(g)}', w)
+    # (4) attributes read when rebuilding exist on every file
+    for e in looked:
+        obs.check(e in must, 'ASSIGN', qd, f'attribute {e!r} is assigned on every path of _deconstruct',
+                  f'`self.{e}` is not assigned on some path (e.g. a path without directory segments): _replace raises '
+                  f'AttributeError for such files', '', where(prog, fd, fd.node))
+    return looked
+
+
 def bids(ctx, obs):
     prog = ctx.prog
     qd = 'io.bids.BidsFile._deconstruct'
@@ -73,18 +202,7 @@ def bids(ctx, obs):
     assigned_any = {t.attr for s in ast.walk(fd.node) if isinstance(s, ast.Assign) for t in s.targets
                     if isinstance(t, ast.Attribute) and isinstance(t.value, ast.Name) and t.value.id == 'self'}
     must = _must_assigned(fd.node.body)
-    looked = [c.args[1].value for c in ast.walk(fr.node) if isinstance(c, ast.Call) and _leaf(c.func) == 'replace_or_inherit'
-              and len(c.args) == 2 and isinstance(c.args[1], ast.Constant)]
-    if len(looked) < 8:
-        raise AnalysisError('_replace: entity look-ups not found')
-    for e in sorted(set(looked) | (assigned_any - {'relpath', 'layout'})):
-        obs.check(e in looked and e in assigned_any, 'TAB', qr, f'entity {e!r} is parsed by _deconstruct and used by _replace',
-                  f'{e!r}: parsed={e in assigned_any}, rebuilt={e in looked}: the entity is dropped when a path is rebuilt' if e in assigned_any
-                  else f'{e!r} is looked up by _replace but never parsed', '', where(prog, fr, fr.node))
-    for e in looked:
-        obs.check(e in must, 'ASSIGN', qd, f'attribute {e!r} is assigned on every path of _deconstruct',
-                  f'`self.{e}` is not assigned on some path (e.g. a path without directory segments): _replace raises '
-                  f'AttributeError for such files', '', where(prog, fd, fd.node))
+    looked = replace_template(ctx, obs, fd, fr, qd, qr, assigned_any, must)
     # entities are read with _findEntity under their own name
     for s in ast.walk(fd.node):
         if isinstance(s, ast.Assign) and isinstance(s.value, ast.Call) and _leaf(s.value.func) == '_findEntity' and s.value.args:
@@ -93,61 +211,6 @@ def bids(ctx, obs):
             ok = isinstance(t, ast.Attribute) and isinstance(a, ast.Constant) and t.attr == a.value
             obs.check(ok, 'TAB', qd, f'attribute {getattr(t, "attr", "?")!r} is parsed from the entity of the same name',
                       f'`{norm(s)}`', '', where(prog, fd, s))
-    # variable -> entity map (from `v = replace_or_inherit(base, 'ent')`) and the name of the file-name segment list (the
-    # argument of '_'.join(...)): both derived from the code, so renaming locals changes nothing
-    var_ent = {}
-    for s in fr.node.body:
-        if isinstance(s, ast.Assign) and isinstance(s.value, ast.Call) and _leaf(s.value.func) == 'replace_or_inherit' \
-                and len(s.value.args) == 2 and isinstance(s.value.args[1], ast.Constant) and isinstance(s.targets[0], ast.Name):
-            var_ent[s.targets[0].id] = s.value.args[1].value
-    seg_list = None
-    for c in ast.walk(fr.node):
-        if isinstance(c, ast.Call) and isinstance(c.func, ast.Attribute) and c.func.attr == 'join' \
-                and isinstance(c.func.value, ast.Constant) and c.func.value.value == '_' and c.args and isinstance(c.args[0], ast.Name):
-            seg_list = c.args[0].id
-    if seg_list is None:
-        raise AnalysisError("_replace: the '_'.join(<segments>) construction of the file name was not found")
-    # file-name order in _replace
-    segs = []
-    for s in fr.node.body:
-        if isinstance(s, (ast.Assign, ast.AugAssign)):
-            tgt = s.targets[0] if isinstance(s, ast.Assign) else s.target
-            if isinstance(tgt, ast.Name) and tgt.id == seg_list:
-                for j in ast.walk(s.value):
-                    if isinstance(j, ast.JoinedStr):
-                        lit = ''.join(v.value for v in j.values if isinstance(v, ast.Constant))
-                        if lit.endswith('-'):
-                            segs.append(lit[:-1])
-                        elif lit == '.':
-                            segs.append('suffix.ext')
-    obs.check(segs == BIDS_ORDER + ['suffix.ext'], 'TAB', qr, 'the file name is rebuilt in BIDS entity order',
-              f'order {segs}, expected {BIDS_ORDER + ["suffix.ext"]}', '', where(prog, fr, fr.node))
-    # each f-string `ent-{v}` uses the variable that was looked up under `ent`
-    for j in ast.walk(fr.node):
-        if isinstance(j, ast.JoinedStr) and len(j.values) == 2 and isinstance(j.values[0], ast.Constant) \
-                and str(j.values[0].value).endswith('-') and isinstance(j.values[1], ast.FormattedValue):
-            ent = j.values[0].value[:-1]
-            v = j.values[1].value
-            if isinstance(v, ast.Name) and v.id in var_ent:
-                obs.check(var_ent[v.id] == ent, 'TAB', qr, f'segment {ent}-<value> carries the value of {ent}',
-                          f'`{norm(j)}` carries the value looked up as {var_ent[v.id]!r}', '', where(prog, fr, j))
-            else:
-                obs.unk('TAB', qr, f'segment {ent}-<value> carries the value of {ent}', f'`{norm(j)}`: value is not a looked-up entity variable',
-                        where(prog, fr, j))
-    # `{suffix}.{ext}`: the two halves are the suffix and the extension
-    for j in ast.walk(fr.node):
-        if isinstance(j, ast.JoinedStr) and len(j.values) == 3 and isinstance(j.values[1], ast.Constant) and j.values[1].value == '.' \
-                and all(isinstance(j.values[k], ast.FormattedValue) and isinstance(j.values[k].value, ast.Name) for k in (0, 2)):
-            got = [var_ent.get(j.values[k].value.id) for k in (0, 2)]
-            obs.check(got == ['suffix', 'ext'], 'TAB', qr, 'the last segment is <suffix>.<ext>', f'`{norm(j)}` is built from {got}', '',
-                      where(prog, fr, j))
-    # the guard of each optional segment tests the variable it emits
-    for s in fr.node.body:
-        if isinstance(s, ast.AugAssign) and isinstance(s.value, ast.IfExp) and isinstance(s.value.test, ast.Name):
-            used = {n.id for n in ast.walk(s.value.body) if isinstance(n, ast.Name) and n.id in var_ent}
-            if used:
-                obs.check(s.value.test.id in used, 'TAB', qr, f'segment of {sorted(var_ent[u] for u in used)} is emitted iff that entity is set',
-                          f'`{norm(s)}` is guarded by {var_ent.get(s.value.test.id, s.value.test.id)!r}', '', where(prog, fr, s))
     # find_* override sets
     want = {
         'find_meta_for': {'ext'},
@@ -160,7 +223,7 @@ def bids(ctx, obs):
         f = prog.func(q)
         calls = [c for c in ast.walk(f.node) if isinstance(c, ast.Call) and _leaf(c.func) == '_replace']
         if not calls:
-            obs.bad('TAB', q, f'{m} rebuilds the path through _replace', 'no _replace call', where(prog, f, f.node))
+            obs.unk('TAB', q, f'{m} rebuilds the path through _replace', 'no _replace call', where(prog, f, f.node))
             continue
         d = calls[0].args[1] if len(calls[0].args) > 1 else None
         got = None
@@ -168,6 +231,10 @@ def bids(ctx, obs):
             got = {k.arg for k in d.keywords}
         elif isinstance(d, ast.Dict):
             got = {k.value for k in d.keys if isinstance(k, ast.Constant)}
+        if got is None:
+            obs.unk('TAB', q, f'{m} changes exactly the entities {sorted(keys)}', f'override set `{norm(d)[:60] if d is not None else None}` '
+                    f'not a dict literal', where(prog, f, calls[0]))
+            continue
         obs.check(got == keys, 'TAB', q, f'{m} changes exactly the entities {sorted(keys)}',
                   f'{m} overrides {sorted(got) if got is not None else None}: other entities of the base file are changed / kept '
                   f'unintentionally', '', where(prog, f, calls[0]))
@@ -175,13 +242,6 @@ def bids(ctx, obs):
         first_param = f.node.args.args[1].arg if len(f.node.args.args) > 1 else None
         obs.check(isinstance(base, ast.Name) and base.id == first_param, 'TAB', q, f'{m} starts from the base file', '', '',
                   where(prog, f, calls[0]))
-    # replace_or_inherit: replacement wins, otherwise inherit from base
-    inner = [n for n in ast.walk(fr.node) if isinstance(n, ast.FunctionDef) and n.name == 'replace_or_inherit']
-    if inner:
-        t = ast.unparse(inner[0]).replace(' ', '')
-        obs.soft('ifentityinreplace_entities:' in t and 'returnreplace_entities[entity]' in t and 'returngetattr(base,entity)' in t,
-                  'TAB', qr, 'an entity is replaced when requested and inherited from the base file otherwise',
-                  'replace_or_inherit does not implement replace-else-inherit', '', where(prog, fr, inner[0]))
     # derivative directory position
     txt = ast.unparse(fd.node).replace(' ', '')
     obs.soft("parts[0]=='derivatives'" in txt and 'self.derivative=parts[1]' in txt, 'TAB', qd,
@@ -511,11 +571,14 @@ def meadows(ctx, obs):
               'loaded components', '', '', where(prog, f, f.node))
     obs.soft("pattern_descriptors=dict(conds=conds)" in t and "[f.split('.')[0]forfinstimuli]" in t, 'MEADOWS', q,
               'condition labels are the stimulus file names without extension', '', '', where(prog, f, f.node))
-    # component tuples: both loaders are unpacked in the same order
+    # component tuples: every site that unpacks loader components uses the same order
     un = [norm(s.targets[0]) for s in ast.walk(f.node) if isinstance(s, ast.Assign) and isinstance(s.targets[0], ast.Tuple)
-          and isinstance(s.value, ast.Call) and _leaf(s.value.func).startswith('load_rdms_comps')]
-    obs.check(len(un) == 2 and len(set(un)) == 1, 'MEADOWS', q, 'mat and json components are unpacked in the same order', f'{un}', '',
-              where(prog, f, f.node))
+          and len(s.targets[0].elts) == 5 and isinstance(s.value, ast.Call)]
+    con = 'mat and json components are unpacked in the same order'
+    if not un:
+        obs.unk('MEADOWS', q, con, 'no 5-tuple unpacking of loader components found', where(prog, f, f.node))
+    else:
+        obs.check(len(set(un)) == 1, 'MEADOWS', q, con, f'{un}', '', where(prog, f, f.node))
     for lq in ('io.meadows.load_rdms_comps_mat', 'io.meadows.load_rdms_comps_json'):
         lf = prog.func(lq)
         lr = ctx.dep.result(lq)
@@ -528,20 +591,70 @@ def meadows(ctx, obs):
     # keys written by extract_filename_segments vs keys read
     qs = 'io.meadows.extract_filename_segments'
     fs = prog.func(qs)
-    written = set()
+    written, opaque = set(), False
     for n in ast.walk(fs.node):
-        if isinstance(n, ast.Call) and _leaf(n.func) == 'dict':
-            written |= {k.arg for k in n.keywords}
-        if isinstance(n, ast.Assign) and isinstance(n.targets[0], ast.Subscript) and isinstance(n.targets[0].slice, ast.Constant):
-            written.add(n.targets[0].slice.value)
+        if isinstance(n, ast.Call) and _leaf(n.func) in ('dict', 'update', 'InfoDict'):
+            written |= {k.arg for k in n.keywords if k.arg}
+            opaque |= any(k.arg is None for k in n.keywords)
+            for a_ in n.args:
+                if isinstance(a_, ast.Dict):
+                    written |= {k.value for k in a_.keys if isinstance(k, ast.Constant)}
+                    opaque |= any(not isinstance(k, ast.Constant) for k in a_.keys)
+                elif _leaf(n.func) == 'update':
+                    opaque = True
+        if isinstance(n, ast.Call) and _leaf(n.func) == 'setdefault' and n.args and isinstance(n.args[0], ast.Constant):
+            written.add(n.args[0].value)
+        if isinstance(n, ast.Dict):
+            written |= {k.value for k in n.keys if isinstance(k, ast.Constant)}
+            opaque |= any(not isinstance(k, ast.Constant) for k in n.keys)
+        if isinstance(n, (ast.Assign, ast.AnnAssign)):
+            for t_ in (n.targets if isinstance(n, ast.Assign) else [n.target]):
+                if isinstance(t_, ast.Subscript):
+                    if isinstance(t_.slice, ast.Constant):
+                        written.add(t_.slice.value)
+                    else:
+                        opaque = True
+    # names that hold the info dict: bound from extract_filename_segments(...), or parameters that receive such a name
+    mod_funcs = {qq: ff for qq, ff in prog.functions.items() if ff.module == 'io.meadows'}
+    holds = {qq: set() for qq in mod_funcs}
+    changed = True
+    while changed:
+        changed = False
+        for qq, ff in mod_funcs.items():
+            for n in ast.walk(ff.node):
+                if isinstance(n, ast.Assign) and isinstance(n.value, ast.Call) and _leaf(n.value.func) == 'extract_filename_segments' \
+                        and isinstance(n.targets[0], ast.Name) and n.targets[0].id not in holds[qq]:
+                    holds[qq].add(n.targets[0].id)
+                    changed = True
+                if isinstance(n, ast.Call):
+                    callee = [c for c in mod_funcs if c.split('.')[-1] == _leaf(n.func)]
+                    tables = [c for c in mod_funcs if any(isinstance(x, ast.Name) and x.id == c.split('.')[-1] for x in ast.walk(ff.node)
+                                                          if not isinstance(getattr(x, 'ctx', None), ast.Store))] if not callee else []
+                    for c in callee or tables:
+                        pp = mod_funcs[c].pos_params
+                        for i, a_ in enumerate(n.args):
+                            if isinstance(a_, ast.Name) and a_.id in holds[qq] and i < len(pp) and pp[i] not in holds[c]:
+                                if callee or len(n.args) == len(pp):
+                                    holds[c].add(pp[i])
+                                    changed = True
     read = set()
-    for rq in ('io.meadows.load_rdms', 'io.meadows.load_rdms_comps_mat', 'io.meadows.load_rdms_comps_json'):
-        for n in ast.walk(prog.func(rq).node):
-            if isinstance(n, ast.Subscript) and isinstance(n.value, ast.Name) and n.value.id == 'info' and isinstance(n.slice, ast.Constant):
+    for rq, ff in mod_funcs.items():
+        if rq == qs:
+            continue
+        for n in ast.walk(ff.node):
+            if isinstance(n, ast.Subscript) and isinstance(n.value, ast.Name) and n.value.id in holds[rq] \
+                    and isinstance(n.slice, ast.Constant) and isinstance(n.ctx, ast.Load):
                 read.add(n.slice.value)
+    if len(read) < 4:
+        raise AnalysisError('meadows: reads of the file-name info dict not found')
     for k in sorted(read):
-        obs.check(k in written, 'TAB', qs, f'info[{k!r}] read by the loaders is produced by extract_filename_segments',
-                  f'{k!r} is read but never written', '', where(prog, fs, fs.node))
+        con = f'info[{k!r}] read by the loaders is produced by extract_filename_segments'
+        if k in written:
+            obs.ok('TAB', qs, con, '', where(prog, fs, fs.node))
+        elif opaque:
+            obs.unk('TAB', qs, con, 'not among the constant keys; the function also writes computed keys', where(prog, fs, fs.node))
+        else:
+            obs.bad('TAB', qs, con, f'{k!r} is read but never written', where(prog, fs, fs.node))
     # scope -> fields
     t = ast.unparse(fs.node).replace(' ', '')
     obs.soft("info['participant']=segments[-3]" in t and "info['task_index']=int(segments[-2])" in t
